@@ -328,7 +328,7 @@ type C12Stream struct {
 func C12Build(r *sim.Run, modes []string) *C12Stream {
 	t := r.T
 	mode := modes[t.Draw(len(modes))]
-	opts := work.PackOpts{MaxTracks: 3, MaxSegs: 4, MaxFrags: 3, MaxSamples: 4, Foreign: mode != "mfra", Styp: 2, NoEmptyTrack: false}
+	opts := work.PackOpts{MaxTracks: 3, MaxSegs: 4, MaxFrags: 3, MaxSamples: 4, Foreign: mode != "mfra", EmsgOnly: true, Styp: 2, NoEmptyTrack: false}
 	if mode == "styp" {
 		opts.Styp = 1
 	}
@@ -772,6 +772,11 @@ func C12CheckIndex(r *sim.Run, mode string, out []byte, groups [][]uint32, refID
 		if s, ok := segStartOf[start]; ok {
 			start = s
 		}
+		if mode == "mfra" && cur == first.moofStart {
+			// tfra entries point at moof boxes: whether event messages in front of that moof open the segment or close
+			// the previous one is not defined by the statement; both tilings are accepted
+			start = cur
+		}
 		if cur != start {
 			r.Violate("c12-sidx-offset", "mode %s: sidx reference %d starts at byte %d of the output, its segment starts at %d", mode, gi, cur, start)
 			return
@@ -808,7 +813,7 @@ func init() {
 			"decode by reader path with seeded delivery, lazy or eager, or slice path; (1) grouping of mfhd sequence numbers per segment and moof positions vs the producer's emission log / independent walk, (2) segment-mode re-encode by either encoder keeps ftyp+moov+emsg+moof+mdat bytes in order, " +
 			"(3) a seeded history of 1-2 UpdateSidx(add, nonZeroEPT) then encode: references located in the OUTPUT bytes by the independent walker must be contiguous, start on each segment's first byte, end at the end of the media, durations = reference-track sums from the independent demuxer. " +
 			"non-trivial = every run (unit stream + delivery); distinct = hash of (API history, mode, segment/fragment counts, UpdateSidx history, delivered read sizes).",
-		Assumptions: []string{"delimiter modes are pure (no mixing of styp with sidx/mfra), because the statement does not define precedence", "mfra mode carries no foreign top-level boxes", "reference_ID and earliest_presentation_time values are not constrained by the statement and not checked"},
+		Assumptions: []string{"delimiter modes are pure (no mixing of styp with sidx/mfra), because the statement does not define precedence", "mfra mode carries no foreign top-level boxes other than event messages in front of a moof (either tiling of those is accepted)", "reference_ID and earliest_presentation_time values are not constrained by the statement and not checked"},
 		Real:        realLib, Stub: []string{"io.Reader/io.ReadSeeker (SimDisk handle incl. seek errors)", "unit stream assembly with raw delimiter boxes", "virtual device time"}, RealNoFault: realNoFault,
 		Runs:       map[string]int{"quick": 300000, "thorough": 25000000},
 		Setup:      C12Setup,
